@@ -689,7 +689,9 @@ def do_check(pid, cfg, tier, seed, ws, injected, args, t0):
     ev = {
         "property_id": pid, "tier": tier, "seed": seed, "level": level,
         "coverage": {
-            "obligations": obligations, "discharged": discharged,
+            # a proof-level claim counts only unbounded obligations; bounded stand-ins are listed apart
+            "obligations": proof_obl if level == "proof" else obligations,
+            "discharged": proof_dis if level == "proof" else discharged,
             "obligations_unbounded": proof_obl, "discharged_unbounded": proof_dis,
             "obligations_bounded": bounded_obl, "discharged_bounded": bounded_dis,
             "evaluations": max(obligations, 1), "distinct_nontrivial": len(named_obl),
